@@ -32,6 +32,8 @@ func runTypeCheck(eng *Engine, name string) []*Obligation {
 	switch {
 	case strings.HasPrefix(name, "wiring:"):
 		return wiringObligations(eng, strings.TrimPrefix(name, "wiring:"))
+	case strings.HasPrefix(name, "itercall:"):
+		return iterCallObligations(eng, strings.TrimPrefix(name, "itercall:"))
 	case strings.HasPrefix(name, "iterfresh:"):
 		return iterFreshObligations(eng, strings.TrimPrefix(name, "iterfresh:"))
 	case strings.HasPrefix(name, "guarded:"):
@@ -595,4 +597,82 @@ func iterFreshObligations(eng *Engine, spec string) []*Obligation {
 		}
 	}
 	return []*Obligation{mkOb(name, "iterfresh", fmt.Sprintf("the slice handed to %s in a loop of %s is built only from arrays allocated in that iteration", parts[1], parts[0]), n > 0 && bad == "", fmt.Sprintf("%s (%d call sites in loops)", bad, n), props)}
+}
+
+// iterCallObligations: "function:callee:argIndex:producer[@props]" — at every call of `callee` inside a loop of
+// `function`, argument argIndex is the result of a call of `producer` made in the same iteration (through
+// interface conversions and result extraction only): never a value kept from an earlier iteration, a map or a phi.
+func iterCallObligations(eng *Engine, spec string) []*Obligation {
+	var props []string
+	if j := strings.Index(spec, "@"); j >= 0 {
+		props = strings.Split(spec[j+1:], ",")
+		spec = spec[:j]
+	}
+	parts := strings.Split(spec, ":")
+	name := "itercall[" + spec + "]"
+	if len(parts) != 4 {
+		return []*Obligation{mkOb(name, "itercall", "itercall:<function>:<callee>:<arg>:<producer>", false, "malformed", props)}
+	}
+	fn := eng.fnByShort(parts[0])
+	argIdx := 0
+	fmt.Sscanf(parts[2], "%d", &argIdx)
+	if fn == nil || fn.Blocks == nil {
+		return []*Obligation{mkOb(name, "itercall", "function exists", false, "no function "+parts[0], props)}
+	}
+	li := eng.loops(fn)
+	n, bad := 0, ""
+	for _, b := range fn.Blocks {
+		for _, in := range b.Instrs {
+			ci, ok := in.(ssa.CallInstruction)
+			if !ok || callSiteName(ci.Common()) != parts[1] {
+				continue
+			}
+			loop := 0
+			for k, body := range li.bodies {
+				if body[b] && (loop == 0 || len(body) < len(li.bodies[loop])) {
+					loop = k
+				}
+			}
+			if loop == 0 {
+				continue
+			}
+			n++
+			args := ci.Common().Args
+			if !ci.Common().IsInvoke() && ci.Common().Signature().Recv() != nil {
+				args = args[1:]
+			}
+			if argIdx >= len(args) {
+				bad = "no such argument"
+				continue
+			}
+			v := args[argIdx]
+			for depth := 0; depth < 6; depth++ {
+				switch x := v.(type) {
+				case *ssa.ChangeInterface:
+					v = x.X
+					continue
+				case *ssa.MakeInterface:
+					v = x.X
+					continue
+				case *ssa.ChangeType:
+					v = x.X
+					continue
+				case *ssa.Extract:
+					v = x.Tuple
+					continue
+				}
+				break
+			}
+			c, ok := v.(*ssa.Call)
+			switch {
+			case !ok:
+				bad = fmt.Sprintf("the argument is a %T, not the result of a call", v)
+			case callSiteName(&c.Call) != parts[3]:
+				bad = "the argument is the result of " + callSiteName(&c.Call)
+			case !li.bodies[loop][c.Block()]:
+				bad = "the producing call is outside the loop"
+			}
+		}
+	}
+	return []*Obligation{mkOb(name, "itercall", fmt.Sprintf("what %s is handed in a loop of %s is the result of %s called in that iteration", parts[1], parts[0], parts[3]), n > 0 && bad == "", fmt.Sprintf("%s (%d call sites in loops)", bad, n), props)}
 }
